@@ -93,7 +93,7 @@ func (j *jsonproto) Pack(m erpc.Message) error {
 	bb.Write(msg6)
 	bb.WriteString(strconv.FormatInt(int64(m.BodyCodec()), 10))
 	bb.Write(msg7)
-	bb.Write(bytes.Replace(bodyBytes, []byte{'"'}, []byte{'\\', '"'}, -1))
+	bb.Write(escapeJSONString(bodyBytes))
 	bb.Write(msg8)
 
 	// do transfer pipe
@@ -171,4 +171,11 @@ func (j *jsonproto) Unpack(m erpc.Message) error {
 	body := gjson.Get(s, "body").String()
 	err = m.UnmarshalBody(goutil.StringToBytes(body))
 	return err
+}
+
+// escapeJSONString escapes the body so that it can be embedded in a JSON string:
+// backslashes first, then double quotes.
+func escapeJSONString(b []byte) []byte {
+	b = bytes.Replace(b, []byte{'\\'}, []byte{'\\', '\\'}, -1)
+	return bytes.Replace(b, []byte{'"'}, []byte{'\\', '"'}, -1)
 }
